@@ -41,6 +41,10 @@ def projEv : Event → List Spec.SOut
   | .raise .parsing => [.err .badRead]
   | .raise .malformed => [.err .cycle]
   | .raise .fileNotFound => [.err .missing]
+  /- vertical input format and fuel are outside the Spec: they are mapped to an error so that nothing behind
+     them counts; under the hypotheses of the refinement theorems they do not occur -/
+  | .raise .unsupported => [.err .badRead]
+  | .raise .outOfFuel => [.err .missing]
   | _ => []
 
 /-- the Spec-level content of a list of events -/
